@@ -19,7 +19,8 @@ ASSUMPTIONS = [
     'edge costs are symbolic reals >= 0 (integers are a special case); heuristic values symbolic, constrained only by consistency '
     'h(u) <= c(u,v) + h(v), h(goal) = 0 (as values: hv = -h)',
 ]
-OUTSIDE = ['digraphs with more than 4 nodes (quick) / 5 nodes (thorough)', 'inconsistent heuristics', 'rounding']
+OUTSIDE = ['digraphs with more than 4 nodes (quick) / 5 nodes (thorough)', 'inconsistent heuristics', 'rounding',
+           'action shuffling combined with random tie-breaking on the two densest thorough graphs (dense5, complete4): each alone is covered there']
 
 
 def graphs(tier):
@@ -235,6 +236,8 @@ def jobs(tier):
             for rao in [False, True]:
                 if quick and rao and g[0] in ('dense4',):
                     continue   # permutations of three 3-way action lists: thorough tier only
+                if rao and tie == 'random' and g[0] in ('dense5', 'complete4'):
+                    continue   # shuffled actions AND random tie keys on the densest graphs: > 20000 paths per case (stated as outside)
                 for hsel in [0, 1]:
                     rep = reps[(gi + hsel + (1 if rao else 0)) % 4] if quick else None
                     for r in ([rep] if quick else reps):
